@@ -37,6 +37,11 @@ func groups(tier string) []group {
 		gs = append(gs, group{fmt.Sprintf("members/perm%d", perm), func(tier string, y func(*scen) bool) { enumMembers(tier, perm, y) }})
 	}
 	gs = append(gs, group{"keys", enumKeys})
+	gs = append(gs, group{"keys-lowbytes", enumKeysLow})
+	for _, sc := range tbin.Scalars() {
+		sc := sc
+		gs = append(gs, group{"typedef/" + sc.String(), func(tier string, yield func(*scen) bool) { enumScalarTD(tier, sc, true, yield) }})
+	}
 	gs = append(gs, group{"leaves/0", func(tier string, y func(*scen) bool) { enumLeaves(tier, 0, y) }})
 	gs = append(gs, group{"leaves/1", func(tier string, y func(*scen) bool) { enumLeaves(tier, 1, y) }})
 	for m := 0; m < 32; m += 4 {
@@ -102,12 +107,23 @@ func isNum(t tbin.Type) bool {
 }
 
 func enumScalar(tier string, s *tbin.Shape, yield func(*scen) bool) {
+	enumScalarTD(tier, s, false, yield)
+}
+
+// enumScalarTD: typedef=true declares every scalar through a typedef alias and uses a reduced value alphabet.
+func enumScalarTD(tier string, s *tbin.Shape, typedef bool, yield func(*scen) bool) {
 	vals := jt.ScalarVals(s, true)
+	if typedef && len(vals) > 6 {
+		vals = vals[:6]
+	}
 	if s.T == tbin.DOUBLE {
 		// a very long decimal spelling: the exact expansion of the smallest subnormal and of a 17-digit value
 		vals = append(vals, tbin.Double(4.9406564584124654e-324))
 	}
 	for _, pos := range positions(s) {
+		if typedef {
+			pos.prog.Typedef = true // same positions and signatures: a typedef must not change anything
+		}
 		for _, w := range vals {
 			root := pos.place(w)
 			forms := 1
@@ -906,3 +922,56 @@ func enumLeaves(tier string, which int, yield func(*scen) bool) {
 
 // hasBinaryVal: the document contains base64 text (escape spellings of it are the scalar/binary family's known finding).
 func hasBinaryVal(v *tbin.Val, s *tbin.Shape) bool { return hasBinary(s) }
+
+// enumKeysLow: alias families whose discriminating position holds bytes below '.' (the name trie maps such bytes
+// to a separate slot range; the Go side and the native twin must agree on it), short keys ending in such a byte
+// and one-byte keys.
+func enumKeysLow(tier string, yield func(*scen) bool) {
+	fams := [][]string{
+		{"user-id", "user_id", "userId"},
+		{"a-", "a_", "ab"},
+		{"-", "_", "x"},
+		{"k$1", "k 1", "k+1", "k,1", "k.1", "k/1", "k01"},
+		{"plain", "x-age", "content-type", "content_type"},
+	}
+	for fi, fam := range fams {
+		var fs []tbin.SField
+		for i := range fam {
+			fs = append(fs, tbin.SField{ID: int16(i + 1), Name: fmt.Sprintf("f%d", i+1), S: tbin.Sc(tbin.I32)})
+		}
+		st := tbin.StructS(fs...)
+		p := jt.NewProg(fmt.Sprintf("keys-low%d", fi), st)
+		for i, k := range fam {
+			p.Set(st, i, jt.FX{Alias: k, Ann: []string{fmt.Sprintf(`api.key = %q`, k)}})
+		}
+		for _, dis := range []bool{false, true} {
+			for i, k := range fam {
+				j := jt.JObj().Add(k, jt.JNum(fmt.Sprint(70+i)))
+				want := tbin.Struct(tbin.F(int16(i+1), tbin.I32v(int32(70+i))))
+				sc := &scen{op: "keys", trigger: fmt.Sprintf("lowbyte-family%d,disallow=%v", fi, dis), prog: p, copts: conv.Options{DisallowUnknownField: dis}, optName: fmt.Sprint("disallow=", dis),
+					doc: jt.Render(j, jt.Spell{}), want: tbin.Bytes(want), ks: []int{0}, note: "key " + k}
+				if !yield(sc) {
+					return
+				}
+			}
+			// all members together, in declaration and in reverse order
+			for _, rev := range []bool{false, true} {
+				j := jt.JObj()
+				want := tbin.Struct()
+				for x := range fam {
+					i := x
+					if rev {
+						i = len(fam) - 1 - x
+					}
+					j.Add(fam[i], jt.JNum(fmt.Sprint(70+i)))
+					want.Fs = append(want.Fs, tbin.F(int16(i+1), tbin.I32v(int32(70+i))))
+				}
+				sc := &scen{op: "keys", trigger: fmt.Sprintf("lowbyte-family%d,all,disallow=%v", fi, dis), prog: p, copts: conv.Options{DisallowUnknownField: dis}, optName: fmt.Sprint("disallow=", dis),
+					doc: jt.Render(j, jt.Spell{}), want: tbin.Bytes(want), ks: []int{0}}
+				if !yield(sc) {
+					return
+				}
+			}
+		}
+	}
+}
